@@ -73,9 +73,13 @@ def deep_equal(a, b, depth=0):
     if isinstance(a, (tuple, list)):
         return len(a) == len(b) and all(deep_equal(x, y, depth + 1) for x, y in zip(a, b))
     try:
-        return bool(a == b)
+        if bool(a == b):
+            return True
     except Exception:
-        return repr(a) == repr(b)
+        pass
+    # objects without value equality (opt_einsum PathInfo): compare their printed form, unless it only shows an address
+    ra, rb = repr(a), repr(b)
+    return ra == rb and " at 0x" not in ra
 
 
 class _Proxy:
